@@ -17,6 +17,9 @@ Layer = Nom("EVQECircuitLayer", "layer", "layer_eqb")
 Ind = Nom("EVQEIndividual", "individual V")
 LPI = Dict(Z, List(Z))
 
+CACHE = Nom("ind_cache", "ind_cache")
+STATE = dict(var="c", ty=CACHE, ctor="mkIndCache", fields=[("_layer_parameter_indices", "c_lpi", LPI)])
+
 POLY = [("V", TYPE)]
 EXC = "EVQEIndividualException"
 
@@ -34,6 +37,7 @@ SPEC = dict(
     attrs={
         ("EVQECircuitLayer", "n_qubits"): ("l_qubits {0}", Z),
         ("EVQECircuitLayer", "n_parameters"): ("layer_n_parameters {0}", Z),
+        ("EVQECircuitLayer", "n_controlled_gates"): ("layer_n_controlled {0}", Z),
         ("EVQEIndividual", "n_qubits"): ("i_qubits {0}", Z),
         ("EVQEIndividual", "layers"): ("i_layers {0}", List(Layer)),
         ("EVQEIndividual", "parameter_values"): ("i_values {0}", List(Val)),
@@ -46,15 +50,21 @@ SPEC = dict(
     funcs={
         "EVQEIndividual": dict(code="make_individual {n_qubits} {layers} {parameter_values}", ty=Ind,
                                params=[("n_qubits", Z), ("layers", List(Layer)), ("parameter_values", List(Val))], partial=True),
+        # types.MappingProxyType(d): a read-only view of d, read as d itself
+        "MappingProxyType": dict(code="{d}", ty=LPI, params=[("d", LPI)]),
         # math.ceil on a float read as an exact rational (float-as-Q)
         "ceil": dict(code="Qceiling {x}", ty=Z, params=[("x", Q)]),
     },
     functions=[
         dict(py="EVQEIndividual.is_valid", gen="Individual_is_valid", extra_params=POLY, params=[("self", "self", Ind)], returns=BOOL),
+        dict(py="EVQEIndividual.__post_init__", gen="Individual_post_init", kind="init", extra_params=POLY, params=[("self", "self", Ind)],
+             state=STATE, locals={"layer_parameter_indices": LPI}),
         dict(py="EVQEIndividual.layer_parameter_indices", gen="layer_parameter_indices", property=True, extra_params=POLY,
              params=[("self", "self", Ind)], returns=LPI),
         dict(py="EVQEIndividual.get_layer_parameter_values", gen="get_layer_parameter_values", extra_params=POLY,
              params=[("self", "self", Ind), ("layer_id", "layer_id", Z)], returns=List(Val)),
+        dict(py="EVQEIndividual.get_parameter_values", gen="get_parameter_values", extra_params=POLY, params=[("self", "self", Ind)], returns=List(Val)),
+        dict(py="EVQEIndividual.get_n_controlled_gates", gen="get_n_controlled_gates", extra_params=POLY, params=[("self", "self", Ind)], returns=Z),
         dict(py="EVQEIndividual.change_parameter_values", gen="change_parameter_values", extra_params=POLY,
              params=[("individual", "i", Ind), ("parameter_values", "vs", List(Val))], returns=Ind),
         dict(py="EVQEIndividual.change_layer_parameter_values", gen="change_layer_parameter_values", extra_params=POLY,
